@@ -81,10 +81,13 @@ func genC17(r *Rng, tier string) *c17W {
 				s = append(s, cOp{Op: "delV", G: g, ID: Pick(r, []string{"a", "b", "c"})})
 			case k < 52:
 				s = append(s, cOp{Op: "delE", G: g, ID: Pick(r, []string{"e1", "e2", "e3", "e4"})})
-			case k < 57:
+			case k < 56:
 				s = append(s, cOp{Op: "addGraph", G: "g2"})
-			case k < 60:
+			case k < 58:
 				s = append(s, cOp{Op: "delGraph", G: "g2"})
+			case k < 60:
+				// a graph dropped and created again by one client, back to back
+				s = append(s, cOp{Op: "delGraph", G: "g2"}, cOp{Op: "addGraph", G: "g2"})
 			case k < 66:
 				s = append(s, cOp{Op: "bulk", G: g, ID: Pick(r, []string{"a", "b", "c"})})
 			case k < 74:
